@@ -272,7 +272,7 @@ def inst_update_guards(cx, iid):
     LI, NLI = r"lt\(arg1\.prev_loss_rate,arg3\.loss_rate\)", r"le\(arg3\.loss_rate,arg1\.prev_loss_rate\)"
     SS, TE = r"is\(arg1\.mode,SlowStart\)", r"is\(arg1\.mode,ThroughputEqn\)"
     TLD = r"arg1\.mode@SlowStart\.0\.time_last_doubled_ms"
-    with cx.instance(iid, "T8 TABLE (guards of the update forms)", "handle_feedback reaches each rate update under exactly its RFC 5348 condition; recv_limit is 2*X_recv_set except after a loss increase", floor=8) as inst:
+    with cx.instance(iid, "T8 TABLE (guards of the update forms)", "handle_feedback reaches each rate update under exactly its RFC 5348 condition; recv_limit is 2*X_recv_set except after a loss increase", floor=5) as inst:
         b = R.body("SendRateComp::handle_feedback")
         fa = cx.fa(b, kill_fields=False)
         want = [
